@@ -8,6 +8,7 @@ cases (strings in hex, "-" = empty, "N" = NULL where path.h allows it):
 """
 import itertools
 import os
+import re
 import time
 from concurrent.futures import ThreadPoolExecutor
 
@@ -226,20 +227,24 @@ def _impl_one(ctx, cases):
             k -= 1
         out += lines[:k]
         if k >= len(todo):
+            # every case printed its line but the process still failed (e.g. LeakSanitizer at exit):
+            # structural failure attached to the last case
+            tag = "EXIT rc=%d %s" % (rc, " ".join(l.strip() for l in err.split("\n") if "ERROR" in l)[:120])
+            out[-1] = out[-1] + (" " if " || " in out[-1] else " || ") + tag
             break
         first = ""
         for l in err.split("\n"):
             if "ERROR" in l or "runtime error" in l:
                 first = l.strip()[:160]
                 break
-        import re
         first = re.sub(r"0x[0-9a-f]+", "0x..", first)
         first = re.sub(r"==\d+==", "", first)
         out.append("CRASH rc=%d %s" % (rc, first))
         todo = todo[k + 1:]
         restarts += 1
-        if restarts > 40:
-            out += ["CRASH (not run: too many crashes)"] * len(todo)
+        if restarts > 12 and todo:
+            # mass failure: stop here; the lines above already hold this shard's first (genuine) crashes
+            out += ["CRASH (not run: too many crashes in this shard)"] * len(todo)
             break
     return out
 
